@@ -39,7 +39,7 @@ pub struct Shared {
     pub parses: Mutex<u64>,
 }
 
-fn parse_on(t: &Target, specs: &[crate::spec::Spec], sut: &dyn Sut, ctx: &Ctx, toks: &[usize], shape: u8) -> Outcome {
+pub fn parse_on(t: &Target, specs: &[crate::spec::Spec], sut: &dyn Sut, ctx: &Ctx, toks: &[usize], shape: u8) -> Outcome {
     if t.builtin {
         let (text, _) = text_of(&specs[t.spec], toks, None);
         sut.parse_str(ctx, &text)
